@@ -392,14 +392,48 @@ func shortType(t types.Type) string {
 	return strings.ReplaceAll(s, modPath+"/", "")
 }
 
-// returnsOf lists the Return instructions of fn.
+// returnsOf lists the normal Return instructions of fn (the synthetic recover
+// block of a function with defers is not a normal exit).
 func returnsOf(fn *ssa.Function) []*ssa.Return {
 	var out []*ssa.Return
-	eachInstr(fn, func(in ssa.Instruction) {
-		if r, ok := in.(*ssa.Return); ok {
-			out = append(out, r)
+	for _, b := range fn.Blocks {
+		if b == fn.Recover {
+			continue
 		}
-	})
+		for _, in := range b.Instrs {
+			if r, ok := in.(*ssa.Return); ok {
+				out = append(out, r)
+			}
+		}
+	}
+	return out
+}
+
+// results gives the values a Return hands back, looking through the result
+// spill go/ssa introduces in functions with defers (*res = v; rundefers; t = *res; return t).
+func results(ret *ssa.Return) []ssa.Value {
+	out := make([]ssa.Value, len(ret.Results))
+	for i, v := range ret.Results {
+		out[i] = v
+		u, ok := v.(*ssa.UnOp)
+		if !ok || u.Op != token.MUL {
+			continue
+		}
+		al, ok := u.X.(*ssa.Alloc)
+		if !ok {
+			continue
+		}
+		// last store to al before the load in the same block
+		b := ret.Block()
+		for _, in := range b.Instrs {
+			if in == ssa.Instruction(u) {
+				break
+			}
+			if st, ok := in.(*ssa.Store); ok && st.Addr == ssa.Value(al) {
+				out[i] = st.Val
+			}
+		}
+	}
 	return out
 }
 
